@@ -17,8 +17,44 @@ import (
 	"sync"
 	"time"
 
+	"github.com/lesismal/nbio/logging"
+
 	"verif/vsched"
 )
+
+// QuietLogger counts nbio's log lines instead of printing them. Error lines (which is where
+// nbio's recover() blocks report swallowed panics) are kept for oracles that want them.
+type QuietLogger struct {
+	mu     sync.Mutex
+	Errors []string
+}
+
+func (q *QuietLogger) Debug(format string, v ...interface{}) {}
+func (q *QuietLogger) Info(format string, v ...interface{})  {}
+func (q *QuietLogger) Warn(format string, v ...interface{})  {}
+func (q *QuietLogger) Error(format string, v ...interface{}) {
+	q.mu.Lock()
+	if len(q.Errors) < 64 {
+		s := fmt.Sprintf(format, v...)
+		if len(s) > 300 {
+			s = s[:300]
+		}
+		q.Errors = append(q.Errors, s)
+	}
+	q.mu.Unlock()
+}
+
+// TakeErrors returns and clears the captured error lines.
+func (q *QuietLogger) TakeErrors() []string {
+	q.mu.Lock()
+	defer q.mu.Unlock()
+	e := q.Errors
+	q.Errors = nil
+	return e
+}
+
+// Log is installed as nbio's logger by Main.
+var Log = &QuietLogger{}
 
 // Root is the /verif directory.
 var Root = func() string {
@@ -224,7 +260,11 @@ func runScenario(sc *Scenario, tier string, spec *Spec, part *Part) {
 			part.Errors = append(part.Errors, fmt.Sprintf("scenario %s: %v", sc.Name, e))
 		}
 	}()
+	t0 := time.Now()
 	ex.Explore(sc.Body)
+	if os.Getenv("VERIF_TIMING") != "" {
+		fmt.Fprintf(os.Stderr, "TIMING %6.1fs execs=%d states=%d complete=%v %s\n", time.Since(t0).Seconds(), ex.Execs, ex.States(), ex.Complete, sc.Name)
+	}
 	part.Scenarios++
 	part.Execs += ex.Execs
 	part.Pruned += ex.PrunedExecs
@@ -357,6 +397,7 @@ func Main(spec *Spec) {
 	only := flag.String("only", "", "run only scenarios whose name contains this string")
 	list := flag.Bool("list", false, "list scenarios")
 	flag.Parse()
+	logging.SetLogger(Log)
 	if t := os.Getenv("VERIF_TIER"); t != "" && !isFlagSet("tier") {
 		*tier = t
 	}
@@ -447,6 +488,9 @@ func parent(spec *Spec, tier string, workers int, only string) int {
 			outb, err := cmd.CombinedOutput()
 			mu.Lock()
 			defer mu.Unlock()
+			if os.Getenv("VERIF_TIMING") != "" {
+				os.Stderr.Write(outb)
+			}
 			if err != nil {
 				total.Errors = append(total.Errors, fmt.Sprintf("worker %d: %v: %s", i, err, tail(string(outb), 2000)))
 				return
